@@ -241,6 +241,56 @@ func TestVerif_C07(t *testing.T) {
 		}
 	})
 
+	// ---- a reader that pauses: the bytes that pile up while it is not reading must all still
+	// arrive, in order (buffers may fill and apply backpressure, they must not drop data)
+	r.Cases("paused-reader", 1, func(ci int, crng *verifkit.Rand) {
+		dest, err := mkStartDest()
+		if err != nil {
+			r.Inconclusive(err.Error())
+			return
+		}
+		defer dest.close()
+		tap := mkInstallTap()
+		defer tap.close()
+		over.hook(tap)
+		m, err := c16BuildMesh(t, chain3, dest, 30*time.Second)
+		if err != nil {
+			r.Inconclusive("mesh did not come up: " + err.Error())
+			return
+		}
+		defer m.stop()
+		var wg sync.WaitGroup
+		plans := []mkTunnelPlan{
+			{ID: 0x7001, Ingress: 0, Via: "tcp", Dest: fmt.Sprintf("127.1.7.1:%d", dest.port), C2S: 1000, S2C: 3 << 20, Mode: mkModeOrderly, Chunk: 1000, ReaderStallMs: r.N(7000, 12000)},
+			{ID: 0x7002, Ingress: 0, Via: "forward:fwd-exit", C2S: 1000, S2C: 2 << 20, Mode: mkModeOrderly, Chunk: 1000, ReaderStallMs: r.N(6000, 11000), ReadBuf: 1000},
+			// a normal tunnel on the same links meanwhile
+			{ID: 0x7003, Ingress: 0, Via: "tcp", Dest: fmt.Sprintf("127.1.7.3:%d", dest.port), C2S: 50000, S2C: 50000, Mode: mkModeOrderly, Chunk: 4096},
+		}
+		res := make([]*mkClientSide, len(plans))
+		for i := range plans {
+			wg.Add(1)
+			go func(i int) { defer wg.Done(); res[i] = mkRunTunnel(m, plans[i], 60*time.Second) }(i)
+		}
+		wg.Wait()
+		for i, cs := range res[:2] {
+			p := plans[i]
+			switch {
+			case cs.DialErr != "":
+				r.Inconclusive("paused-reader: open failed: " + cs.DialErr)
+			case cs.BadAt >= 0 || (cs.SawEOF && cs.Got != p.S2C):
+				r.Violation("paused-reader:bytes-differ", "paused-reader", ci, fmt.Sprintf("%s tunnel whose reader paused %d ms: received %d of %d bytes, first wrong byte at offset %d, eof=%v err=%q", p.Via, p.ReaderStallMs, cs.Got, p.S2C, cs.BadAt, cs.SawEOF, cs.ReadErr), p)
+			case cs.TimedOut:
+				r.Inconclusive("paused-reader: watchdog")
+			case !cs.SawEOF:
+				r.Violation("paused-reader:stream-broken", "paused-reader", ci, fmt.Sprintf("%s tunnel whose reader paused %d ms ended with %q after %d of %d bytes", p.Via, p.ReaderStallMs, cs.ReadErr, cs.Got, p.S2C), p)
+			default:
+				r.Add("paused_reader_transfers_completed", 1)
+			}
+			r.Eval(fmt.Sprintf("paused/%s/%d", p.Via, p.S2C), true)
+		}
+		r.Add("frames_tapped", int(tap.nFrames.Load()))
+	})
+
 	// ---- shell and file transfer on one mesh
 	r.Cases("shell-file", 1, func(ci int, crng *verifkit.Rand) {
 		dest, err := mkStartDest()
